@@ -26,7 +26,7 @@ func (r *rng) intn(n int) int {
 	}
 	return int(r.u64() % uint64(n))
 }
-func (r *rng) chance(pct int) bool { return r.intn(100) < pct }
+func (r *rng) chance(pct int) bool     { return r.intn(100) < pct }
 func (r *rng) pick(xs []string) string { return xs[r.intn(len(xs))] }
 func (r *rng) bytes(n int) []byte {
 	b := make([]byte, n)
